@@ -121,6 +121,9 @@ func (p *Program) newCFG(info *types.Info, name string, ft *ast.FuncType, body *
 		}
 	}
 	for _, b := range f.G.Blocks {
+		if !b.Live {
+			continue // go/cfg opens an unreachable block after every return/branch; it is nobody's predecessor
+		}
 		for _, s := range b.Succs {
 			f.preds[s] = append(f.preds[s], b)
 		}
@@ -697,11 +700,22 @@ func (f *FuncCFG) onNonNilEdge(b *cfg.Block, o types.Object) bool {
 							if be.Op == token.EQL && p.Succs[1] == b {
 								return true
 							}
+							return false
 						}
 					}
 				}
 			}
-			return false
+			// a condition about something else (`errors.Is(err, X)`): what an earlier test established about o
+			// still holds below it as long as o is not reassigned in between
+			for _, n := range p.Nodes {
+				if as, ok := n.(*ast.AssignStmt); ok {
+					for _, lh := range as.Lhs {
+						if id, ok := lh.(*ast.Ident); ok && f.Info.ObjectOf(id) == o {
+							return false
+						}
+					}
+				}
+			}
 		}
 		b = p
 	}
